@@ -652,7 +652,9 @@ pub fn run(cli: Cli) -> ! {
     let thorough = cli.tier.thorough();
     let shapes = target_shapes();
     let players = [P, Q, PQ];
-    let hosts = ["a.example", "b.example"];
+    // the same adapter instance is asked about these hosts one after the other; two of them differ only in
+    // case (the host scopes are the case-sensitive patterns ^a\. and ^b\.), in both orders
+    let hosts = ["a.example", "A.EXAMPLE", "b.example", "a.example", "B.example", "b.example", "A.example"];
 
     // (a) single filters (meta with <= 2 rules, allow, block; all scopes) x target lists x players x hosts, default strategy
     let singles = filters(2);
@@ -766,7 +768,7 @@ pub fn run(cli: Cli) -> ! {
     rep.set("single_filters", json!(singles.len()));
     rep.set("pair_menu", json!(menu.len()));
     rep.set("exhaustive", json!(true));
-    rep.set("rule", json!("full product: every single filter (meta with 0-2 rules over 16 rule shapes, allow/block with 36 list shapes, 3 host scopes) x target lists x 3 players x 2 hosts; every ordered pair from the reduced menu; strategies (any, player_fill x 2 fields x 5 capacities) x target lists with 8-10 count spellings behind 3 chains; 9 YAML configurations through the config crate. Each case is distinct by construction; non-trivial = the chain removed some but not all targets, or the player was refused."));
+    rep.set("rule", json!("full product: every single filter (meta with 0-2 rules over 16 rule shapes, allow/block with 36 list shapes, 3 host scopes) x target lists x 3 players x 5 host spellings (two pairs differing only in case, asked one after the other on the same adapter instance in both orders); every ordered pair from the reduced menu; strategies (any, player_fill x 2 fields x 5 capacities) x target lists with 8-10 count spellings behind 3 chains; 9 YAML configurations through the config crate. Each case is distinct by construction; non-trivial = the chain removed some but not all targets, or the player was refused."));
     rep.sample(json!({"chain": "[meta k equals v @host ^a\\.]", "targets": ["{k:v}", "{k:w,j:v}"], "player": "pa", "host": "a.example", "expect": "first eligible = #0"}));
     rep.sample(json!({"strategy": "player_fill(players, max=2)", "targets": ["{players:1}", "{players:2}", "{players:x}"], "expect": "#0 (fullest below capacity) under every reading"}));
     rep.sample(json!({"chain": "[allow usernames=[aq] ids=[uuid_p]] + [block regex q$]", "player": "aq", "expect": "refused"}));
